@@ -3,6 +3,7 @@
 
 use crate::core::*;
 use crate::engines::e1_chain::{Case as ChainCase, Top, World};
+use crate::model::chain::ApiKind;
 use crate::engines::e1_gen::{Gen, Profile};
 use crate::engines::e1_run::{finish_transcript, run_history_t, HistoryOpts};
 use crate::engines::{e3_bank, e4_staking};
@@ -25,7 +26,8 @@ pub fn chain_history(seed: u64, i: u64, len: usize) -> (ChainCase, Vec<String>) 
     let mut p = Profile::base();
     p.registry_pct = 15;
     p.admin_pct = 8;
-    let opts = HistoryOpts { profile: p, len, sweep: false, matrix: false };
+    let api = *rng.pick(&[ApiKind::Std, ApiKind::Std, ApiKind::Bech32, ApiKind::Bech32m]);
+    let opts = HistoryOpts { profile: p, len, sweep: false, matrix: false, api };
     let mut scratch = Report::new();
     let (case, _discs, t) = run_history_t(&mut rng, &opts, &mut scratch, "C19", true);
     (case, t.unwrap_or_default())
@@ -34,7 +36,7 @@ pub fn chain_history(seed: u64, i: u64, len: usize) -> (ChainCase, Vec<String>) 
 /// Replays a chain program on a fresh instance.
 pub fn chain_replay(case: &ChainCase) -> Vec<String> {
     let mut scratch = Report::new();
-    let mut w = World::new();
+    let mut w = World::with_api(case.api);
     w.transcript = Some(vec![]);
     for op in &case.ops {
         let _ = w.step(op, &mut scratch);
@@ -46,8 +48,8 @@ pub fn chain_replay(case: &ChainCase) -> Vec<String> {
 /// instance does unrelated work in between. Returns the two transcripts and the number of noise steps.
 pub fn chain_interleaved(case: &ChainCase, noise_seed: u64) -> (Vec<String>, Vec<String>, u64) {
     let mut scratch = Report::new();
-    let mut a = World::new();
-    let mut b = World::new();
+    let mut a = World::with_api(case.api);
+    let mut b = World::with_api(case.api);
     let mut c = World::new();
     a.transcript = Some(vec![]);
     b.transcript = Some(vec![]);
@@ -133,28 +135,75 @@ pub fn bank_transcript(case: &e3_bank::Case) -> Vec<String> {
     t
 }
 
+/// Runs `f` on a thread of its own (fresh thread-local state, discarded afterwards).
+pub fn on_fresh_thread<T: Send>(f: impl FnOnce() -> T + Send) -> Result<T, String> {
+    std::thread::scope(|s| {
+        std::thread::Builder::new()
+            .stack_size(256 << 20)
+            .spawn_scoped(s, move || catch(f))
+            .expect("spawn")
+            .join()
+            .map_err(|_| "thread panicked".to_string())
+            .and_then(|r| r)
+    })
+}
+
+/// Staking and bank programs, generated once (by whoever; generation itself drives instances and is kept away
+/// from the executions that are compared: it runs on a thread of its own, or in another process).
+#[derive(Clone, Debug, Default, serde::Serialize, serde::Deserialize)]
+pub struct OtherCases {
+    pub staking: Vec<e4_staking::Case>,
+    pub bank: Vec<e3_bank::Case>,
+}
+
+pub fn other_cases(seed: u64, n: u64) -> OtherCases {
+    let mut out = OtherCases::default();
+    for i in 0..n {
+        if let (Ok(s), Ok(b)) = (on_fresh_thread(|| staking_history(seed, i)), on_fresh_thread(|| bank_history(seed, i))) {
+            out.staking.push(s);
+            out.bank.push(b);
+        }
+    }
+    out
+}
+
 /// One line per history: "<kind> <index> <sha256 of the solo transcript>". A history whose generation or
 /// replay panics (e.g. because a fresh instance cannot even be set up any more) yields the digest "PANIC",
-/// which then differs from the digest of an execution where it worked.
-pub fn digest_lines(seed: u64, chain_n: u64, chain_len: usize, other_n: u64) -> Vec<String> {
+/// which then differs from the digest of an execution where it worked. Sorted, so that the order of execution
+/// (`other_first`: staking and bank replays before the chain histories) does not matter to the comparison.
+pub fn digest_lines(seed: u64, chain_n: u64, chain_len: usize, other: &OtherCases, other_first: bool) -> Vec<String> {
     let mut out = vec![];
-    for i in 0..chain_n {
-        let d = catch(|| sha(&chain_history(seed, i, chain_len).1)).unwrap_or_else(|_| "PANIC".into());
-        out.push(format!("chain {} {}", i, d));
+    let chain = |out: &mut Vec<String>| {
+        for i in 0..chain_n {
+            let d = catch(|| sha(&chain_history(seed, i, chain_len).1)).unwrap_or_else(|_| "PANIC".into());
+            out.push(format!("chain {:06} {}", i, d));
+        }
+    };
+    let others = |out: &mut Vec<String>| {
+        for (i, c) in other.staking.iter().enumerate() {
+            let d = catch(|| sha(&staking_transcript(c))).unwrap_or_else(|_| "PANIC".into());
+            out.push(format!("staking {:06} {}", i, d));
+        }
+        for (i, c) in other.bank.iter().enumerate() {
+            let d = catch(|| sha(&bank_transcript(c))).unwrap_or_else(|_| "PANIC".into());
+            out.push(format!("bank {:06} {}", i, d));
+        }
+    };
+    if other_first {
+        others(&mut out);
+        chain(&mut out);
+    } else {
+        chain(&mut out);
+        others(&mut out);
     }
-    for i in 0..other_n {
-        let d = catch(|| sha(&staking_transcript(&staking_history(seed, i)))).unwrap_or_else(|_| "PANIC".into());
-        out.push(format!("staking {} {}", i, d));
-        let d = catch(|| sha(&bank_transcript(&bank_history(seed, i)))).unwrap_or_else(|_| "PANIC".into());
-        out.push(format!("bank {} {}", i, d));
-    }
+    out.sort();
     out
 }
 
 pub fn first_diff(a: &[String], b: &[String]) -> String {
     for (i, (x, y)) in a.iter().zip(b.iter()).enumerate() {
         if x != y {
-            let cut = |s: &String| if s.len() > 300 { format!("{}…", &s[..300]) } else { s.clone() };
+            let cut = |s: &String| if s.len() > 300 { format!("{}…", s.chars().take(300).collect::<String>()) } else { s.clone() };
             return format!("record #{} differs: [{}] vs [{}]", i, cut(x), cut(y));
         }
     }
